@@ -378,8 +378,8 @@ pub fn observe(ctx: &Ctx, rd: &RunDir, w: &World, fmt: &str, sim_now: i64, cwd_m
         "observe fmt={fmt} now={sim_now} cwd={cwd_mode} plan={:?} -> {} out={} err={}",
         plan,
         out.status_str(),
-        norm(ctx, &short(&out.out_str(), 4000)),
-        norm(ctx, &short(&out.err_str(), 600))
+        short(&norm(ctx, &out.out_str()), 4000),
+        short(&norm(ctx, &out.err_str()), 600)
     ));
     Obs { out, doc, parse_err }
 }
